@@ -23,7 +23,10 @@ def scratch_dir(prefix="case"):
         shutil.rmtree(d, ignore_errors=True)
 
 
-def write_tiff(path, data, dtype="float32", nodata=None, descriptions=None, georef=False):
+LOCAL_CRS = "+proj=tmerc +lat_0=43.5 +lon_0=1.4 +k=0.9999 +x_0=1000 +y_0=2000 +ellps=GRS80 +units=m +no_defs"
+
+
+def write_tiff(path, data, dtype="float32", nodata=None, descriptions=None, georef=False, crs="EPSG:32631"):
     """data: (H, W) or (bands, H, W)"""
     import rasterio
     from rasterio.transform import Affine
@@ -37,7 +40,7 @@ def write_tiff(path, data, dtype="float32", nodata=None, descriptions=None, geor
     if georef:
         # georef = True, or an (x, y) offset of the origin (a second image of the same scene has its own footprint)
         dx, dy = georef if isinstance(georef, (tuple, list)) else (0.0, 0.0)
-        profile["crs"] = "EPSG:32631"
+        profile["crs"] = crs  # an EPSG code, or a projection without any authority code (LOCAL_CRS)
         profile["transform"] = Affine(0.5, 0.0, 300000.0 + dx, 0.0, -0.5, 4800000.0 + dy)
     with warnings.catch_warnings():
         warnings.simplefilter("ignore")
